@@ -1333,7 +1333,7 @@ class VM:
             return ",".join(array_elem_to_string(elem) for elem in arr._elements)
 
         def join_fn(*args):
-            sep = "," if not args else to_string(args[0])
+            sep = "," if not args or args[0] is UNDEFINED else to_string(args[0])
             return sep.join(array_elem_to_string(elem) for elem in arr._elements)
 
         def map_fn(*args):
